@@ -49,7 +49,7 @@ def plan(tier, seed):
     return dict(scenarios=scs, exhaustive=(tier == 'quick'), chunk=2, caps=[] if tier == 'quick' else ['n=5: bond sets of <= 3 pairs plus the complete graph only (n <= 4 is exhaustive)'],
                 menus=dict(n_atoms=list(range(1, N + 1)), id_schemes=[x[0] for x in id_schemes(3)], coords=[c[0] for c in COORDS], flavours=FLAVOURS,
                            bond_sets='every subset of the pairs for n<=4; for n=5 every subset of <=3 pairs plus the full set', directions=['forward', 'reversed', 'alternating'],
-                           bond_order=['document', 'reversed'], routes=['load_cml(path)', 'load_cml(file)', 'Atoms.load(path)', "Atoms.load(file, 'cml')"]),
+                           bond_order=['document', 'reversed'], routes=['load_cml(path)', 'load_cml(file)', 'Atoms.load(path)', "Atoms.load(file, 'cml')", "Atoms.load(path.v2.txt, filetype='cml')"]),
                 bounds=dict(max_atoms=N), rule='one scenario per (n, id scheme, coordinates, flavour); all bond sets x directions x orders x routes inside; non-trivial = at least one bond and a non-sequential id scheme',
                 assumptions=['documents are of the Avogadro flavour without XML namespace, as the repository example files'])
 
@@ -88,7 +88,10 @@ def run(sc, ctx):
                 out['hashes'].add(h64(text))
                 with open(path, 'w') as f:
                     f.write(text)
-                routes = [('load_cml(path)', lambda: Atoms.load_cml(path)), ('load_cml(file)', lambda: Atoms.load_cml(io.StringIO(text))),
+                path2 = path[:-4] + '.v2.txt'
+                with open(path2, 'w') as f:
+                    f.write(text)
+                routes = [("Atoms.load(path with another extension, filetype='cml')", lambda: Atoms.load(path2, filetype='cml')), ('load_cml(path)', lambda: Atoms.load_cml(path)), ('load_cml(file)', lambda: Atoms.load_cml(io.StringIO(text))),
                           ('Atoms.load(path)', lambda: Atoms.load(path)), ("Atoms.load(file,'cml')", lambda: Atoms.load(io.StringIO(text), 'cml'))]
                 for rname, fn in routes:
                     a, err = call(fn)
